@@ -546,6 +546,47 @@ fn failing_recorder(ctx: &Ctx) {
     });
 }
 
+/// A recorder may accept fewer bytes than offered (the trait returns the count): whatever the
+/// recorder's appetite - 1, 2, 3, 5, 7, 4095 bytes per call - the file is the same.
+fn trickle_recorder(ctx: &Ctx) {
+    struct Trickle {
+        per_call: usize,
+        data: Vec<u8>,
+    }
+    impl rustzx_core::host::DataRecorder for Trickle {
+        fn write(&mut self, buf: &[u8]) -> Result<usize, rustzx_core::error::IoError> {
+            let n = buf.len().min(self.per_call);
+            self.data.extend_from_slice(&buf[..n]);
+            Ok(n)
+        }
+    }
+    for m128 in [false, true] {
+        for latch in if m128 { vec![0x00u8, 0x12, 0x15, 0x07] } else { vec![0u8] } {
+            let s = SaveState { m128, pattern: 1, im: 2, iff2: false, border: 5, r: 0x80, i: 0x7F, latch, sp: 0x8000, later_write: None, halted: false };
+            let mut saver = build_saver(&s);
+            let mut whole = Trickle { per_call: usize::MAX, data: Vec::new() };
+            if saver.save_snapshot(SnapshotRecorder::Sna(&mut RecMut(&mut whole))).is_err() {
+                continue;
+            }
+            for per_call in [1usize, 2, 3, 5, 7, 4095] {
+                let mut t = Trickle { per_call, data: Vec::new() };
+                let r = saver.save_snapshot(SnapshotRecorder::Sna(&mut RecMut(&mut t)));
+                ctx.add_eval(1);
+                if r.is_err() || t.data != whole.data {
+                    let first = t.data.iter().zip(whole.data.iter()).position(|(a, b)| a != b);
+                    ctx.violation(
+                        &format!("C13:trickle-recorder:{}", if m128 { "128k" } else { "48k" }),
+                        &format!("saving through a recorder that accepts at most {} byte(s) per call gives {} ({} bytes, first difference at {:?}); a recorder that accepts everything gives {} bytes (7FFD={:02x})", per_call, if r.is_err() { "an error" } else { "another file" }, t.data.len(), first, whole.data.len(), latch),
+                        json!({"kind":"trickle-recorder","m128":m128,"latch":latch,"per_call":per_call}),
+                    );
+                    break;
+                }
+            }
+            ctx.outcome(0x771C ^ (latch as u64) << 1 ^ m128 as u64);
+        }
+    }
+}
+
 struct RecMut<'a, T: rustzx_core::host::DataRecorder>(&'a mut T);
 impl<'a, T: rustzx_core::host::DataRecorder> rustzx_core::host::DataRecorder for RecMut<'a, T> {
     fn write(&mut self, buf: &[u8]) -> Result<usize, rustzx_core::error::IoError> {
@@ -620,8 +661,9 @@ pub fn run(tier: Tier, seed: u64, replay: Option<String>) -> i32 {
     if let Some(path) = replay {
         let v: serde_json::Value = serde_json::from_slice(&rig::read_file(&path)).expect("replay json");
         let c = &v["case"];
-        if c["kind"] == "failing-recorder" {
+        if c["kind"] == "failing-recorder" || c["kind"] == "trickle-recorder" {
             failing_recorder(&ctx);
+            trickle_recorder(&ctx);
             let n = ctx.violation_classes();
             println!("replay: {} violation class(es) reproduced", n);
             return (n > 0) as i32;
@@ -655,13 +697,14 @@ pub fn run(tier: Tier, seed: u64, replay: Option<String>) -> i32 {
         ctx.add_eval(1);
     });
     failing_recorder(&ctx);
+    trickle_recorder(&ctx);
     ctx.add_nontrivial(jobs.len() as u64);
     ctx.sample(state_json(&sts[sts.len() / 2], Receiver::LockedOtherBank));
     ctx.note("save_states", json!(sts.len()));
     ctx.note("receivers", json!(RECEIVERS.iter().map(|r| format!("{:?}", r)).collect::<Vec<_>>()));
     ctx.note("not_judged", json!("IFF1 (not carried by SNA), MEMPTR/Q, 48K PC when the two bytes below SP are ROM, the two stack bytes holding PC in a 48K file"));
     ctx.finish(
-        "save states (running, and halted on a HALT in front of the observer): two register patterns with all 26 register bytes pairwise distinct x IM x IFF2 x border x R,I in {00,7F,80,FF} x (128K) all 256 paging values reached by CPU-executed OUTs (16 in quick) x SP in {8000,4002,4001,4000,0001,0000,FFFF} (48K), RAM position-coded per bank; receivers: same machine now / 1 / 1000 instructions later, fresh, halted, between a DD prefix and its opcode, right after EI, paging locked on another bank, everything different. save_snapshot through a recording DataRecorder, load_snapshot (asset returning short reads of rotating sizes), then: registers, border, paging latch+lock+map, every RAM bank, and 24 lock-step instructions of an observer program against a pristine twin of the saved machine; registers and all RAM of the saving machine before/after the save, also when the save fails (recorders accepting 0, 1, 26, 27, 28, 16411, total-1 bytes, then Ok(0) or an error). distinct_nontrivial = (state, receiver) pairs",
+        "save states (running, and halted on a HALT in front of the observer): two register patterns with all 26 register bytes pairwise distinct x IM x IFF2 x border x R,I in {00,7F,80,FF} x (128K) all 256 paging values reached by CPU-executed OUTs (16 in quick) x SP in {8000,4002,4001,4000,0001,0000,FFFF} (48K), RAM position-coded per bank; receivers: same machine now / 1 / 1000 instructions later, fresh, halted, between a DD prefix and its opcode, right after EI, paging locked on another bank, everything different. save_snapshot through a recording DataRecorder, load_snapshot (asset returning short reads of rotating sizes), then: registers, border, paging latch+lock+map, every RAM bank, and 24 lock-step instructions of an observer program against a pristine twin of the saved machine; registers and all RAM of the saving machine before/after the save, also when the save fails (recorders accepting 0, 1, 26, 27, 28, 16411, total-1 bytes, then Ok(0) or an error); recorders that accept 1/2/3/5/7/4095 bytes per call must receive the same file. distinct_nontrivial = (state, receiver) pairs",
         false,
         &["hooks: verif_cpu, verif_ram_bank, verif_paging, verif_set_frame_clocks (to keep the INT pulse out of the continuation)"],
     )
